@@ -53,44 +53,48 @@ Proof.
 Qed.
 
 Lemma P_spaces node : P 0 0 (spaces ts node).
-Proof.
-  intros st st' E. unfold spaces in E. destruct (bound_of ts node); [|discriminate]. exact (P_spaces_to _ _ _ E).
-Qed.
+Proof. unfold spaces. destruct (bound_of ts node); [apply P_spaces_to | apply P_fail]. Qed.
 
 Lemma P_advance text : P 0 0 (advance_emit text).
 Proof.
   intros st st' [= <-]. cbn. split; [lia|]. eexists [_]. split; [reflexivity|]. repeat constructor.
 Qed.
 
-Lemma P_fun d lo (m : WM) : (forall st, P d lo (fun _ => m st)) -> P d lo m.
-Proof. intros H st st' E. exact (H st st st' E). Qed.
+Lemma P_with_cur d lo (k : token -> WM) : (forall t, P d lo (k t)) -> P d lo (with_cur ts k).
+Proof. intros H st st' E. unfold with_cur in E. destruct (cur ts st) as [t|]; [exact (H t _ _ E) | discriminate]. Qed.
+
+Lemma P_with_peek d lo (k : option token -> WM) : (forall o, P d lo (k o)) -> P d lo (with_peek ts k).
+Proof. intros H st st' E. unfold with_peek in E. exact (H _ _ _ E). Qed.
+
+Lemma P_with_st d lo (k : wst -> WM) : (forall s, P d lo (k s)) -> P d lo (with_st k).
+Proof. intros H st st' E. unfold with_st in E. exact (H _ _ _ E). Qed.
+
+Lemma P_with_code d lo t (k : list Z -> WM) : (forall c, P d lo (k c)) -> P d lo (with_code t k).
+Proof. intros H. unfold with_code. destruct t; try apply P_fail. apply H. Qed.
 
 Ltac pseq := eapply (P_seq' 0 0 0 0 0 0); [ | | reflexivity | cbn; lia ].
 
 Lemma P_get_text node kw : P 0 0 (get_text ts node kw).
 Proof.
-  unfold get_text. pseq; [apply P_spaces|]. intros st st' E. destruct (cur ts st) as [t|]; [|discriminate].
-  destruct (is_kw_or_sym kw t); [exact (P_advance _ _ _ E) | discriminate].
+  unfold get_text. pseq; [apply P_spaces|]. apply P_with_cur. intros t.
+  destruct (is_kw_or_sym kw t); [apply P_advance | apply P_fail].
 Qed.
 
 Lemma P_get_name node t : P 0 0 (get_name ts node t).
 Proof.
-  unfold get_name. pseq; [apply P_spaces|]. intros st st' E.
-  destruct (kclass_eqb (tk t) CName); [exact (P_advance _ _ _ E) | discriminate].
+  unfold get_name. pseq; [apply P_spaces|].
+  destruct (kclass_eqb (tk t) CName); [apply P_advance | apply P_fail].
 Qed.
 
 Lemma P_get_semis n node : P 0 0 (get_semis ts n node).
 Proof.
   induction n as [|n IH]; [apply P_fail|]. cbn [get_semis]. pseq; [apply P_spaces|].
-  intros st st' E. destruct (tok_at ts (w_pos st)) as [t|].
-  - destruct (tok_eqb t _).
-    + revert E. apply (P_seq' 0 0 0 0 0 0); [apply P_advance | exact IH | reflexivity | cbn; lia].
-    + exact (P_skip _ _ E).
-  - exact (P_skip _ _ E).
+  apply P_with_peek. intros [t|]; [|apply P_skip].
+  destruct (tok_eqb t _); [|apply P_skip]. pseq; [apply P_advance | exact IH].
 Qed.
 
 Lemma P_semis node : P 0 0 (semis ts node).
-Proof. intros st st' E. unfold semis in E. exact (P_get_semis _ _ _ _ E). Qed.
+Proof. unfold semis. apply P_with_st. intros s. apply P_get_semis. Qed.
 
 Lemma P_name_tok t (k : token -> WM) : (forall tk, P 0 0 (k tk)) -> P 0 0 (name_tok t k).
 Proof. intros H. unfold name_tok. destruct t; try apply P_fail. apply H. Qed.
@@ -114,9 +118,7 @@ Qed.
 Lemma P_field_rest l : P 0 0 (field_rest ts walk node l).
 Proof.
   induction l as [|x r IH]; [apply P_skip|]. cbn [field_rest]. pseq; [apply P_spaces|].
-  intros st st' E. destruct (cur ts st) as [t|]; [|discriminate]. revert E.
-  apply (P_seq' 0 0 0 0 0 0); [apply P_get_text | | reflexivity | cbn; lia].
-  pseq; [apply Hw | exact IH].
+  apply P_with_cur. intros t. pseq; [apply P_get_text|]. pseq; [apply Hw | exact IH].
 Qed.
 
 Lemma P_stats l : P 0 0 (stats ts walk node l).
@@ -157,18 +159,15 @@ End Lists.
 Lemma P_conv d lo m d' lo' : P d' lo' m -> d = d' -> lo <= lo' -> P d lo m.
 Proof. intros H -> Hl. eapply P_weaken; eassumption. Qed.
 
-Lemma P_tok_code node t :
-  P 0 0 (fun st => match tok_code_of t with Ok c => get_text ts node c st | Err e => Err e end).
-Proof.
-  intros st st' E. destruct (tok_code_of t) as [c|]; [exact (P_get_text node c _ _ E) | discriminate].
-Qed.
+Lemma P_with_code_txt node t : P 0 0 (with_code t (get_text ts node)).
+Proof. apply P_with_code. intros c. apply P_get_text. Qed.
 
 Lemma P_name_tok_get_name node t : P 0 0 (name_tok t (get_name ts node)).
 Proof. apply P_name_tok. intros. apply P_get_name. Qed.
 
 Ltac leaf w Hw :=
   first [ apply P_skip | apply P_spaces | apply P_get_text | apply P_get_name | apply P_advance
-        | apply P_indent | apply P_semis | apply P_spaces_to | apply P_tok_code | apply P_name_tok_get_name
+        | apply P_indent | apply P_semis | apply P_spaces_to | apply P_with_code_txt | apply P_name_tok_get_name
         | apply Hw
         | apply (P_stats w Hw) | apply (P_sep_rest w Hw) | apply P_name_rest | apply (P_field_rest w Hw)
         | apply (P_if_pairs w Hw) | apply (P_fail _ 0 0) ].
@@ -176,6 +175,7 @@ Ltac leaf w Hw :=
 Ltac pc w Hw :=
   lazymatch goal with
   | |- P _ _ (_ >> _) => eapply P_conv; [eapply P_seq; [pe w Hw | pe w Hw] | vm_compute; reflexivity | vm_compute; try (intro; discriminate); try reflexivity ]
+  | |- P _ _ (with_cur _ _) => apply P_with_cur; intro; pc w Hw
   | |- P _ _ (match ?x with _ => _ end) => destruct x; pc w Hw
   | |- P _ _ (if ?x then _ else _) => destruct x; pc w Hw
   | |- _ => leaf w Hw
@@ -183,6 +183,7 @@ Ltac pc w Hw :=
 with pe w Hw :=
   lazymatch goal with
   | |- P _ _ (_ >> _) => eapply P_seq; [pe w Hw | pe w Hw]
+  | |- P _ _ (with_cur _ _) => refine (_ : P 0 0 _); pc w Hw
   | |- P _ _ (match _ with _ => _ end) => refine (_ : P 0 0 _); pc w Hw
   | |- P _ _ (if _ then _ else _) => refine (_ : P 0 0 _); pc w Hw
   | |- _ => leaf w Hw
@@ -200,66 +201,28 @@ Proof.
       destruct c; [ try solve [pc w Hw] | ]
   end.
   all: try solve [pc w Hw].
-  - (* ExpValue: an optional parenthesis around the value *)
-    eapply (P_seq' 0 0 0 0 0 0); [apply P_spaces | | reflexivity | cbn; lia].
-    intros st st' E. destruct (cur ts st) as [t|]; [|discriminate]. revert st st' E.
-    change (P 0 0 ((if tok_eqb t (mkTok CSymbol 0 "("%bs "("%bs) then advance_emit "("%bs >> indent_by 1 else skip) >>
-              match f 0%nat with
-              | PNone => get_text ts (Node tag s e sh fs) "nil"%bs
-              | PBool false => get_text ts (Node tag s e sh fs) "false"%bs
-              | PBool true => get_text ts (Node tag s e sh fs) "true"%bs
-              | Tok _ tv =>
-                  match tk tv with
-                  | CName => get_name ts (Node tag s e sh fs) tv
-                  | CNumber | CString => spaces ts (Node tag s e sh fs) >> advance_emit (tcode tv)
-                  | _ => fail_with AttributeError
-                  end
-              | v => w v
-              end >>
-              (if tok_eqb t (mkTok CSymbol 0 "("%bs "("%bs) then indent_by (-1) >> get_text ts (Node tag s e sh fs) ")"%bs else skip))).
-    assert (Hv : P 0 0 match f 0%nat with
-              | PNone => get_text ts (Node tag s e sh fs) "nil"%bs
-              | PBool false => get_text ts (Node tag s e sh fs) "false"%bs
-              | PBool true => get_text ts (Node tag s e sh fs) "true"%bs
-              | Tok _ tv =>
-                  match tk tv with
-                  | CName => get_name ts (Node tag s e sh fs) tv
-                  | CNumber | CString => spaces ts (Node tag s e sh fs) >> advance_emit (tcode tv)
-                  | _ => fail_with AttributeError
-                  end
-              | v => w v
-              end) by pc w Hw.
-    destruct (tok_eqb t _).
-    + eapply (P_seq' 0 0 1 0 (-1) (-1)); [ | | reflexivity | cbn; lia].
-      * eapply (P_seq' 1 0 0 0 1 0); [apply P_advance | apply P_indent | reflexivity | cbn; lia].
-      * eapply (P_seq' (-1) (-1) 0 0 (-1) (-1)); [exact Hv | | reflexivity | cbn; lia].
-        eapply (P_seq' (-1) (-1) (-1) 0 0 0); [apply P_indent | apply P_get_text | reflexivity | cbn; lia].
-    + eapply (P_seq' 0 0 0 0 0 0); [apply P_skip | | reflexivity | cbn; lia].
-      eapply (P_seq' 0 0 0 0 0 0); [exact Hv | apply P_skip | reflexivity | cbn; lia].
-  - (* FunctionCallMethod: a string argument is compared with the token under the cursor *)
-    eapply (P_seq' 0 0 0 0 0 0); [apply Hw | | reflexivity | cbn; lia].
-    eapply (P_seq' 0 0 0 0 0 0); [apply P_get_text | | reflexivity | cbn; lia].
-    eapply (P_seq' 0 0 0 0 0 0); [apply P_name_tok_get_name | | reflexivity | cbn; lia].
-    destruct (f 2%nat) as [? ? ? ? ? | ? ta | ? | | ? | ? | ? | ? ? ? | ?]; try solve [pc w Hw].
-    destruct (kclass_eqb (tk ta) CString); [|apply Hw].
-    eapply (P_seq' 0 0 0 0 0 0); [apply P_spaces | | reflexivity | cbn; lia].
-    intros st st' E. destruct (cur ts st) as [t|]; [|discriminate].
-    destruct (tok_eqb ta t); [exact (P_advance _ _ _ E) | discriminate].
-  - (* TableConstructor: the optional trailing separator *)
-    eapply (P_seq' 0 0 0 0 0 0); [apply P_get_text | | reflexivity | cbn; lia].
-    eapply (P_seq' 0 0 1 0 (-1) (-1)); [apply P_indent | | reflexivity | cbn; lia].
-    assert (Hf : P 0 0 match f 0%nat with
-                       | Lst [] => skip
-                       | Lst (x :: r) => w x >> field_rest ts w (Node tag s e sh fs) r
-                       | PNone => skip
-                       | _ => fail_with TypeError
-                       end) by pc w Hw.
-    eapply (P_seq' (-1) (-1) 0 0 (-1) (-1)); [exact Hf | | reflexivity | cbn; lia].
-    eapply (P_seq' (-1) (-1) (-1) 0 0 0); [apply P_indent | | reflexivity | cbn; lia].
-    eapply (P_seq' 0 0 0 0 0 0); [apply P_spaces | | reflexivity | cbn; lia].
-    eapply (P_seq' 0 0 0 0 0 0); [ | apply P_get_text | reflexivity | cbn; lia].
-    intros st st' E. destruct (cur ts st) as [t|]; [|discriminate].
-    destruct (_ || _); [exact (P_get_text _ _ _ _ E) | exact (P_skip _ _ E)].
+  (* what is left is ExpValue: an optional parenthesis around the value, +1 inside *)
+  eapply (P_seq' 0 0 0 0 0 0); [apply P_spaces | | reflexivity | cbn; lia].
+  apply P_with_cur. intros t. cbn zeta.
+  assert (Hv : P 0 0 match f 0%nat with
+            | PNone => get_text ts (Node tag s e sh fs) "nil"%bs
+            | PBool false => get_text ts (Node tag s e sh fs) "false"%bs
+            | PBool true => get_text ts (Node tag s e sh fs) "true"%bs
+            | Tok _ tv =>
+                match tk tv with
+                | CName => get_name ts (Node tag s e sh fs) tv
+                | CNumber | CString => spaces ts (Node tag s e sh fs) >> advance_emit (tcode tv)
+                | _ => fail_with AttributeError
+                end
+            | v => w v
+            end) by pc w Hw.
+  destruct (tok_eqb t _).
+  - eapply (P_seq' 0 0 1 0 (-1) (-1)); [ | | reflexivity | cbn; lia].
+    + eapply (P_seq' 1 0 0 0 1 0); [apply P_advance | apply P_indent | reflexivity | cbn; lia].
+    + eapply (P_seq' (-1) (-1) 0 0 (-1) (-1)); [exact Hv | | reflexivity | cbn; lia].
+      eapply (P_seq' (-1) (-1) (-1) 0 0 0); [apply P_indent | apply P_get_text | reflexivity | cbn; lia].
+  - eapply (P_seq' 0 0 0 0 0 0); [apply P_skip | | reflexivity | cbn; lia].
+    eapply (P_seq' 0 0 0 0 0 0); [exact Hv | apply P_skip | reflexivity | cbn; lia].
 Qed.
 
 (* ---------- the whole run ---------- *)
@@ -269,6 +232,7 @@ Proof.
   unfold writer_chunks. destruct root as [tag s e sh fs | | | | | | | |]; try discriminate.
   destruct (negb _); [discriminate|].
   destruct ((walk ts (2 * tdepth (Node tag s e sh fs) + 2) (Node tag s e sh fs) >> spaces_to ts (ntok ts)) (mkW 0 0 [])) as [st|] eqn:E; [|discriminate].
+  destruct (w_pos st =? ntok ts); [|discriminate].
   intros [= <- _].
   assert (HP : P 0 0 (walk ts (2 * tdepth (Node tag s e sh fs) + 2) (Node tag s e sh fs) >> spaces_to ts (ntok ts))).
   { eapply (P_seq' 0 0 0 0 0 0); [apply walk_balanced | apply P_spaces_to | reflexivity | cbn; lia]. }
